@@ -30,7 +30,10 @@ def screen_sites(ctx):
     R, T = ctx.R, ctx.T
     params = screen_init_params(ctx)
     out = []
+    absorbed = set(getattr(R, "absorbed", []) or [])
     for fq, f in sorted(R.funcs.items()):
+        if fq in absorbed:
+            continue        # a new helper spliced into every caller: its construction is judged where it runs, with the caller's arguments
         n = 0
         for call, callees, how in T.resolve_calls(fq):
             if how != "ctor":
